@@ -111,6 +111,23 @@ def declaration (ts : List Tok) : Option (R × List Tok) :=
     | some ([⟨d, none⟩], .body b, r') => some (.funDef ss d b, r')
     | _ => none
 
+/-- `parseTranslationUnit` with `parseExternalDeclaration`: declarations up to the end of the text; a `;` alone is an incomplete declaration
+without specifiers (`parseIncompleteDeclaration_AtFirst`).  One unit of fuel per declaration. -/
+def unit : Nat → List Tok → Option (List R)
+  | 0, _ => none
+  | _ + 1, [] => some []
+  | f + 1, .semi :: r =>
+    match unit f r with
+    | some rs => some (.incomplete [] :: rs)
+    | none => none
+  | f + 1, ts =>
+    match declaration ts with
+    | some (r, rest) =>
+      match unit f rest with
+      | some rs => some (r :: rs)
+      | none => none
+    | none => none
+
 /-! ## The printing side -/
 def ppSpec : Spec → Tok
   | .kw n => .sp n
@@ -136,5 +153,15 @@ def acc : R → Bool
   | .typedefDecl ss ids => !ss.isEmpty && hasTypedef ss && !ids.isEmpty && ids.all okID
   | .varDecl ss ids => !ss.isEmpty && !hasTypedef ss && !ids.isEmpty && ids.all okID
   | .funDef ss d _ => !ss.isEmpty && isFunDef d
+
+def ppU : List R → List Tok
+  | [] => []
+  | r :: rs => pp r ++ ppU rs
+
+/-- an external declaration the parser accepts: a `;` alone, or an accepted declaration / definition -/
+def accU (r : R) : Bool :=
+  match r with
+  | .incomplete [] => true
+  | r => acc r
 
 end PsycheModel.Declaration
